@@ -178,6 +178,11 @@ class Lexer:
                 else:
                     self.string(start, line, "@", '"', "str")
                 continue
+            if self.lang == "CS" and ((c == "$" and c1 == "@") or (c == "@" and c1 == "$")) and self.peek(2) == '"':
+                self.adv()
+                self.adv()
+                self.verbatim(start, line, c + c1)
+                continue
             if c == "$" and c1 == '"' and self.lang == "CS":
                 self.adv()
                 self.string(start, line, "$", '"', "str")
